@@ -5,17 +5,29 @@ set -u
 export GOFLAGS=-mod=mod GOPROXY=off GOTOOLCHAIN=local TZ=UTC CGO_ENABLED=1
 V=$(cd "$(dirname "${BASH_SOURCE[0]}")" && pwd)
 B=$V/.build
+# VERIF_REPO (default /repo): a scratch worktree can be checked instead (seed
+# evaluation); it gets its own build directory and module file.  The commands
+# registered in MANIFEST.json never set it.
+R=${VERIF_REPO:-/repo}
+MODFLAG=
+if [ "$R" != /repo ]; then
+  B=$V/.build/alt-$(echo -n "$R" | md5sum | cut -c1-10)
+  mkdir -p $B
+  sed "s#=> /repo\$#=> $R#" $V/mc/go.mod > $B/go.mod
+  cp $V/mc/go.sum $B/go.sum
+  MODFLAG="-modfile=$B/go.mod"
+fi
 mkdir -p $B/bin $B/overlay $B/overlay-shim
 cd $V/mc || exit 2
 if [ ! -x $B/bin/genoverlay ] || [ cmd/genoverlay/main.go -nt $B/bin/genoverlay ]; then
-  go1.26.8 build -o $B/bin/genoverlay ./cmd/genoverlay || exit 2
+  go1.26.8 build $MODFLAG -o $B/bin/genoverlay ./cmd/genoverlay || exit 2
 fi
-$B/bin/genoverlay -repo /repo -src $V/mc/overlaysrc -out $B/overlay || exit 2
-$B/bin/genoverlay -repo /repo -src $V/mc/overlaysrc -out $B/overlay-shim \
+$B/bin/genoverlay -repo $R -src $V/mc/overlaysrc -out $B/overlay || exit 2
+$B/bin/genoverlay -repo $R -src $V/mc/overlaysrc -out $B/overlay-shim \
   -shim "${VERIF_SHIM_FILES:-faults/set.go,faults/description.go,actions/message-streamer.go,actions/http-push-streamer.go}" || exit 2
 mode=${1:-plain}
 if [ "$mode" = shim ]; then
-  go1.26.8 test -c -tags verif,verifshim -vet=off -overlay $B/overlay-shim/overlay.json -o $B/bin/checks-shim.test ./checks 2>&1 || exit 2
+  go1.26.8 test $MODFLAG -c -tags verif,verifshim -vet=off -overlay $B/overlay-shim/overlay.json -o $B/bin/checks-shim.test ./checks 2>&1 || exit 2
 else
-  go1.26.8 test -c -tags verif -vet=off -overlay $B/overlay/overlay.json -o $B/bin/checks.test ./checks 2>&1 || exit 2
+  go1.26.8 test $MODFLAG -c -tags verif -vet=off -overlay $B/overlay/overlay.json -o $B/bin/checks.test ./checks 2>&1 || exit 2
 fi
